@@ -40,7 +40,7 @@ struct SlipHarness : Harness {
     std::vector<std::string> probes(const std::string &) const override {
         return {"garbage_ends_in_esc", "garbage_without_delimiter", "garbage_esc_followed_by_end", "sof_first_frame_lost", "empty_frame_sof", "empty_frame_classic",
                 "sink_error_on_escaped_octet", "encoder_source_error", "encoder_sink_error", "decoder_source_error", "decoder_sink_error", "illegal_sequence_reported",
-                "resynchronised_after_garbage", "concatenated_frames", "worst_case_length_reached", "source_error_between_frames_then_retry", "encode_while_decoder_is_inside_a_frame", "context_from_static_initialiser", "second_link_worked_during_a_sink_call"};
+                "resynchronised_after_garbage", "concatenated_frames", "worst_case_length_reached", "source_error_between_frames_then_retry", "encode_while_decoder_is_inside_a_frame", "context_from_static_initialiser", "second_link_worked_during_a_sink_call", "sink_answered_not_now_during_encode"};
     }
     uint64_t runs(const std::string &, const Tier &t) const override { return t.thorough() ? 30000000 : 2500000; }
 
@@ -86,6 +86,7 @@ struct SlipHarness : Harness {
         bool sof = r.chance(1, 2);
         p["sof"] = sof; if (r.chance(1, 3)) p["static_init"] = 1;
         if (r.chance(1, 5)) { Json ij = Json::arr(); ij.push((long long)r.below(12)); ij.push((long long)r.below(1 << 24)); p["intrude"] = ij; }
+        if (r.chance(1, 4)) { Json tj = Json::arr(); tj.push((long long)r.below(14)); tj.push((long long)r.below(2)); p["snk_transient"] = tj; }
         p["src_octet"] = r.chance(1, 2); p["snk_octet"] = r.chance(1, 2);
         int maxlen = t.thorough() ? (r.chance(1, 10) ? 1024 : (r.chance(1, 3) ? 64 : 9)) : 9;
         bool full = t.thorough() ? r.chance(1, 2) : r.chance(1, 4);
@@ -230,6 +231,21 @@ struct SlipHarness : Harness {
         // ---- encode all frames with the real encoder
         Bytes line;
         std::vector<Bytes> encs;
+        // a sink that answers "not now" (-EAGAIN / -EINTR) once: the single-octet puts of the encoder pass that on to the caller, the two-octet
+        // escape pairs go through the chunk API, which retries - either way a call that reports success must have produced the whole frame
+        if (plan.has("snk_transient") && !F.empty()) {
+            const Json &tj = plan.get("snk_transient");
+            int64_t at = tj.ati(0, 0); if (at < 0) at = 0; if (at > 64) at = 64;
+            const int code = tj.ati(1, 0) & 1 ? EINTR : EAGAIN;
+            Json scr = Json::arr(); for (int64_t q = 0; q < at; ++q) scr.push(ko ? 1 : 2); scr.push((long long)-code);
+            Enc t = encode(c, sof, so, ko, F[0], &scr, -1, 0, 0);
+            if (!t.finished) { c.fail("noprogress.encode", "encoder did not return within the step budget"); return; }
+            COUNT("probe.sink_answered_not_now_during_encode");
+            if (t.rc >= 0) {
+                Bytes want = ref_encode(F[0], sof);
+                if (t.out != want) { c.fail("form.encode_after_transient", "the sink answered %d once (at call %lld); the encoder reported success but the frame on the line is not the encoding (%zu octets, %zu expected)", -code, (long long)at, t.out.size(), want.size()); return; }
+            } else if (t.rc != -code) { c.fail("error.encode_sink", "sink answered %d, encoder returned %d", -code, t.rc); return; }
+        }
         for (size_t i = 0; i < F.size(); ++i) {
             bool inject = (where == 0 || where == 1) && i == 0;
             Enc e = encode(c, sof, so, ko, F[i], partial, inject ? where : -1, fpos, fcode);
